@@ -78,8 +78,12 @@ class RefWL:
                            % (self.g[self.cur_bin], self.g[b], inr, float(ev["acceptProb"]), p))
         if not abs(float(ev["f"]) - self.f) <= 1e-12:
             raise Mismatch("f-value", "f=%r, model %r" % (ev["f"], self.f))
-        self.pending = (ev["nseq"], b, inr, p)
-        return p
+        # the decision rule "accept iff u < p" is judged with the probability the implementation reported (just validated to agree
+        # with the rule's value within 1e-12): a draw placed exactly on p must not turn a last-place rounding difference between
+        # math.exp and numpy's exp into a disagreement
+        p_dec = float(ev["acceptProb"])
+        self.pending = (ev["nseq"], b, inr, p_dec)
+        return p_dec
 
     def on_step(self, ev, u):
         nseq, b, inr, p = self.pending
